@@ -5,7 +5,8 @@ use crate::report::Ctx;
 use crate::runner::{run_history, History, Oracles};
 use serde_json::json;
 
-pub const TREE_PATHS: [&str; 7] = ["/a", "/B", "/B/x", "/cc", "/\u{e9}", "/B/Y", "/B/x/z"];
+/// The fourth path is a name of exactly 31 UTF-16 units (the 64-byte name field completely full).
+pub const TREE_PATHS: [&str; 7] = ["/a", "/B", "/B/x", "/ccccccccccccccccccccccccccccccc", "/\u{e9}", "/B/Y", "/B/x/z"];
 
 pub fn tree_ops(paths: &[&str]) -> Vec<Op> {
     let mut v = Vec::new();
